@@ -5,10 +5,12 @@ EXTENDS Signature, Json
 Trace == ndJsonDeserialize("trace.ndjson")
 VARIABLES l, viol, drift
 tvars == <<row, pc, wire, hargs, hret, reply, cret, l, viol, drift>>
-IsPair(e) == "kind" \in DOMAIN e.row
+IsPair(e) == "kind" \in DOMAIN e.row          \* rows about several calls at once (pair, burst): verdict only, no stepwise model
+IsBurst(e) == IsPair(e) /\ e.row.kind = "burst"
 RowOf(e) == IF IsPair(e) THEN [n |-> 0, ctx |-> FALSE, raw |-> FALSE, ret |-> "val", outcome |-> "value", tr |-> e.row.tr, fmt |-> e.row.fmt] ELSE
             [n |-> e.row.n, ctx |-> e.row.ctx, raw |-> e.row.raw, ret |-> e.row.ret, outcome |-> e.row.outcome, tr |-> e.row.tr, fmt |-> e.row.fmt]
-ObsOf(e) == IF IsPair(e) THEN [aran |-> e.obs.aran, bran |-> e.obs.bran, ares |-> e.obs.ares, bres |-> e.obs.bres] ELSE
+ObsOf(e) == IF IsBurst(e) THEN [ran |-> e.obs.ran, own |-> e.obs.own] ELSE
+            IF IsPair(e) THEN [aran |-> e.obs.aran, bran |-> e.obs.bran, ares |-> e.obs.ares, bres |-> e.obs.bres] ELSE
             [ran |-> e.obs.ran, argsok |-> e.obs.argsok, nargs |-> e.obs.nargs, err |-> e.obs.err, res |-> e.obs.res]
 Load(j) == row' = RowOf(Trace[j]) /\ pc' = "client" /\ wire' = None /\ hargs' = <<>> /\ hret' = None /\ reply' = None /\ cret' = None
 TInit == /\ l = 1 /\ viol = <<>> /\ drift = <<>>
@@ -17,7 +19,7 @@ TInit == /\ l = 1 /\ viol = <<>> /\ drift = <<>>
 TStep == /\ pc \notin {"done", "end"} /\ Next /\ UNCHANGED <<l, viol, drift>>
 TCheck == /\ pc = "done"
           /\ LET o == ObsOf(Trace[l]) IN
-             /\ viol'  = IF (IF IsPair(Trace[l]) THEN P_C01_Pair(Trace[l].row, o) ELSE P_C01(row, o)) THEN viol ELSE Append(viol, l)
+             /\ viol'  = IF (IF IsBurst(Trace[l]) THEN P_C01_Burst(Trace[l].row, o) ELSE IF IsPair(Trace[l]) THEN P_C01_Pair(Trace[l].row, o) ELSE P_C01(row, o)) THEN viol ELSE Append(viol, l)
              /\ drift' = IF IsPair(Trace[l]) \/ o = ModelObs THEN drift ELSE Append(drift, l)
           /\ l' = l + 1
           /\ IF l + 1 <= Len(Trace) THEN Load(l + 1) ELSE pc' = "end" /\ UNCHANGED <<row, wire, hargs, hret, reply, cret>>
